@@ -4,6 +4,7 @@ import (
 	"encoding/binary"
 	"fmt"
 	"math/rand/v2"
+	"net/netip"
 	"os"
 	"runtime"
 	"slices"
@@ -13,11 +14,13 @@ import (
 	"time"
 
 	"github.com/anishathalye/porcupine"
+	"github.com/scionproto/scion/pkg/addr"
 
 	"example.com/scion-time/core/server"
 	"example.com/scion-time/net/ntp"
 
 	"verif/harness/internal/ev"
+	"verif/harness/internal/peer"
 )
 
 // C07 — server per-client state stays bounded, consistent and race-free.
@@ -547,14 +550,102 @@ func init() {
 		if r.Only() == "" || r.Only()[0] == 'c' {
 			crash("c07conc", r.RunLeg("race", "c07conc", 40*time.Minute, env))
 		}
+		if r.Only() == "" {
+			c07Listeners(r)
+		}
 		r.CollectRaces(true, "core/server")
 		r.Assume("hook level (build tag verif): handleRequest/updateTXTimestamp driven as the listeners drive them; linearizability checked below capacity where clients do not interact (partition by client)")
 		r.Assume("sequential specification = the code's own sequential behaviour replayed on a private store state (porcupine model step calls the real handler)")
 		r.Finish("(a) 80-operation histories on 1..12 clients with the store walked under its own lock after every operation (map/heap agreement, back-pointers, heap order, 1..8 exchanges, ranking >= latest exchange; = for clients whose requests arrive in timestamp order); "+
 			"(b) fill to exactly 2^20 clients, then newcomers older / equal / newer than the least recently active client and requests of known clients: client set changes exactly as stated, count never above 2^20; "+
-			"(c) under the race detector, 2..16 goroutines issuing handle/update pairs on 1..3 clients with colliding receive times, every call recorded at the boundary from one atomic counter, final per-client snapshot; each history checked with porcupine "+
+			"(c) under the race detector: the real 8 IP + 16 SCION listener goroutines fired at from 32..64 sockets sharing three client addresses; and 2..16 goroutines issuing handle/update pairs on 1..3 clients with colliding receive times, every call recorded at the boundary from one atomic counter, final per-client snapshot; each history checked with porcupine "+
 			"(partitioned by client, 60 s budget: timeout = inconclusive). distinct_nontrivial = distinct small-store histories + newcomers + distinct recorded interleavings", 8)
 	})
 }
 
 var _ = os.Getenv
+
+// c07Listeners: the real 8 IP + 16 SCION listener goroutines (race build, child process) under
+// fire from many sockets that share a few client addresses; the race detector's log of the
+// child is collected by the parent (reports with a frame in core/server are violations).
+func c07Listeners(r *ev.Run) {
+	srv := blockIP(r, 7, 1)
+	tgt, err := StartTarget("race", "-ip", srv.String(), "-kinds", "ip,scion")
+	if err != nil {
+		r.Inconclusive("target: " + err.Error())
+		return
+	}
+	defer tgt.Kill()
+	lia, _ := addr.ParseIA("1-ff00:0:110")
+	nSock := r.Pick(32, 64)
+	perSock := r.Pick(150, 3000)
+	var wg sync.WaitGroup
+	var sent, got atomic.Int64
+	for s := 0; s < nSock; s++ {
+		wg.Add(1)
+		go func(s int) {
+			defer wg.Done()
+			cli := blockIP(r, 7, 10+s%3) // three client identities shared by all sockets
+			uc, err := peer.NewUDPClient(cli)
+			if err != nil {
+				return
+			}
+			defer uc.Close()
+			rng := rand.New(rand.NewPCG(uint64(r.Seed()), uint64(s)))
+			var lastRX, lastTX uint64
+			for k := 0; k < perSock; k++ {
+				req := peer.NTPFields{LVM: 0x23, Transmit: peer.UniqueTime64()}
+				if lastRX != 0 && rng.IntN(2) == 0 {
+					req.Origin, req.Receive = lastRX, lastTX
+				}
+				var dg []byte
+				dst := netip.AddrPortFrom(srv, 123)
+				switch s % 3 {
+				case 0:
+					dg = req.Bytes()
+				default:
+					dst = netip.AddrPortFrom(srv, []uint16{10123, 30041}[s%2])
+					dg, _ = (&peer.SCIONPkt{SrcIA: lia, DstIA: lia, SrcHost: cli, DstHost: srv, SrcPort: uc.Local().Port(), DstPort: 10123, Payload: req.Bytes()}).Serialize()
+				}
+				if uc.Send(dst, dg) != nil {
+					return
+				}
+				sent.Add(1)
+				if k%4 == 3 { // keep a few requests in flight, then collect
+					for _, d := range uc.Drain(2 * time.Millisecond) {
+						p := d.Data
+						if s%3 != 0 {
+							p = scionUnwrap(d.Data)
+						}
+						if f, ok := peer.ParseNTP(p); ok {
+							lastRX, lastTX = f.Receive, f.Transmit
+							got.Add(1)
+						}
+					}
+				}
+			}
+			for _, d := range uc.Drain(100 * time.Millisecond) {
+				_ = d
+				got.Add(1)
+			}
+		}(s)
+	}
+	wg.Wait()
+	r.Eval(sent.Load())
+	r.Set("listener_requests_sent", sent.Load())
+	r.Set("listener_replies_received", got.Load())
+	if !tgt.Alive() {
+		first, frame := tgt.ExitInfo()
+		kind := "panic:" + c08Sig(frame)
+		if strings.Contains(tgt.Stderr(), "concurrent map") {
+			kind = "race:fatal concurrent map access in the timestamp store"
+		}
+		r.Violation("listeners|"+kind+"|concurrent requests of few clients", "listeners", map[string]any{"first_line": first, "stderr": tgt.Stderr()})
+		return
+	}
+	if got.Load() > sent.Load()/2 {
+		r.Class("real-listeners-under-concurrent-fire")
+	} else {
+		r.Inconclusive(fmt.Sprintf("listeners answered only %d of %d requests", got.Load(), sent.Load()))
+	}
+}
